@@ -406,12 +406,13 @@ func (s *scanner) ReadNumber() (Native, error) {
 // ReadString reads a ()-delimited string, starting after the opening bracket.
 func (s *scanner) ReadString() (String, error) {
 	var res []byte
+	limit := s.storedStringLimit()
 	bracketLevel := 1 // we are already inside the opening "("
 	ignoreLF := false
 	for {
 		// A string of exactly maxStringBytes bytes is allowed: the limit is
 		// only exceeded once a further byte has been added.
-		if len(res) > maxStringBytes {
+		if len(res) > limit {
 			return nil, &MalformedFileError{
 				Err: errors.New("string too long"),
 			}
@@ -433,11 +434,9 @@ func (s *scanner) ReadString() (String, error) {
 		case ')':
 			bracketLevel--
 			if bracketLevel == 0 {
-				if s.enc != nil && s.encRef != 0 {
-					res, err = s.enc.DecryptBytes(s.encRef, res)
-					if err != nil {
-						return nil, err
-					}
+				res, err = s.decryptString(res)
+				if err != nil {
+					return nil, err
 				}
 				return String(res), nil
 			}
@@ -497,6 +496,7 @@ func (s *scanner) ReadHexString() (String, error) {
 	var hexVal byte
 	first := true
 	tooLong := false
+	limit := s.storedStringLimit()
 	err := s.ScanBytes(func(b byte) bool {
 		var d byte
 		if b >= '0' && b <= '9' {
@@ -513,7 +513,7 @@ func (s *scanner) ReadHexString() (String, error) {
 		if first {
 			hexVal = d
 		} else {
-			if len(res) >= maxStringBytes {
+			if len(res) >= limit {
 				tooLong = true
 				return false
 			}
@@ -531,7 +531,7 @@ func (s *scanner) ReadHexString() (String, error) {
 		}
 	}
 	if !first {
-		if len(res) >= maxStringBytes {
+		if len(res) >= limit {
 			return nil, &MalformedFileError{
 				Err: errors.New("hex string too long"),
 			}
@@ -544,14 +544,41 @@ func (s *scanner) ReadHexString() (String, error) {
 		return nil, err
 	}
 
-	if s.enc != nil && s.encRef != 0 {
-		res, err = s.enc.DecryptBytes(s.encRef, res)
-		if err != nil {
-			return nil, err
-		}
+	res, err = s.decryptString(res)
+	if err != nil {
+		return nil, err
 	}
 
 	return String(res), nil
+}
+
+// storedStringLimit is the cap on the bytes a string occupies in the file.
+// The cap on a string is maxStringBytes; where strings are encrypted with AES
+// the stored form is longer by the 16-byte initialisation vector and 1 to 16
+// bytes of padding.
+func (s *scanner) storedStringLimit() int {
+	if s.enc != nil && s.encRef != 0 && s.enc.strF != nil && s.enc.strF.Cipher == cipherAES {
+		return maxStringBytes + 32
+	}
+	return maxStringBytes
+}
+
+// decryptString decrypts a string of the current object, if the file is
+// encrypted, and applies the cap on string lengths to the result.
+func (s *scanner) decryptString(res []byte) ([]byte, error) {
+	if s.enc == nil || s.encRef == 0 {
+		return res, nil
+	}
+	res, err := s.enc.DecryptBytes(s.encRef, res)
+	if err != nil {
+		return nil, err
+	}
+	if len(res) > maxStringBytes {
+		return nil, &MalformedFileError{
+			Err: errors.New("string too long"),
+		}
+	}
+	return res, nil
 }
 
 // ReadName reads a PDF name object.
